@@ -15,7 +15,7 @@ from mc.battery import Exc, call, p64
 
 MOD = 'checks.c01_crash'
 
-KINDS = ['new', 'mod', 'mod2', 'big', 'meta', 'empty', 'del', 'undo', 'stale',
+KINDS = ['new', 'new2', 'mod', 'mod2', 'big', 'meta', 'empty', 'del', 'undo', 'stale',
          'restore', 'ab1', 'ab2', 'reopen']
 PROBE_OID = p64(0x99)
 
